@@ -82,8 +82,10 @@ def check_arrays(ctx, label, rep, d, payload, gym_space=None):
 def space_sweep(ctx, types, colors, shape, view, idx):
     h, w = shape
     vh, vw = view
-    ss = StateSpace(Shape(h, w), types, colors)
-    os_ = ObservationSpace(Shape(vh, vw), types, colors)
+    # on purpose the *same* list objects are handed to both spaces (and kept by the harness): nobody may modify them
+    types_given, colors_given = list(types), list(colors)
+    ss = StateSpace(Shape(h, w), types_given, colors_given)
+    os_ = ObservationSpace(Shape(vh, vw), types_given, colors_given)
     objs = repgen.member_objects(types, colors)
     obs_objs = objs + [Hidden()]
     helds = objs + [NoneGridObject()]
@@ -136,6 +138,10 @@ def space_sweep(ctx, types, colors, shape, view, idx):
                     continue
                 check_arrays(ctx, f'{spec} {name} observation', orep, d, payload, ogym)
                 ctx.nontrivial((enc.jdump(spec), name, 'o', enc.es(obs)))
+    if types_given != list(types) or colors_given != list(colors):
+        ctx.violation('bounds', 'space.modifies_declared_lists', f'{spec}: building spaces/representations modified the lists of declared '
+                      f'types/colours passed in ({[t.__name__ for t in types_given]}, {[c.name for c in colors_given]})', 'rep_case',
+                      dict(spec, rep='default', kind='state'))
     if idx % 17 == 0:
         ctx.sample('space', spec)
 
